@@ -65,13 +65,14 @@ def check(spec, stats):
     mm = bus.memory_map
     wins = []
     for wmap, name, (ws, we, ratio) in mm.windows():
-        idx = [i for i, f in enumerate(ifaces) if f.memory_map is wmap]
+        idx = [i for i, f in enumerate(ifaces) if f.memory_map is wmap or getattr(dec, "aliases", {}).get(id(wmap)) == i]
         if len(idx) != 1 or ratio != 1:
             raise Violation("C07/windows-report", f"window {name}: interfaces {idx}, ratio {ratio}")
         i = idx[0]
         wins.append((i, ws, ws + (1 << wmap.addr_width), we))
     if [w[0] for w in wins] != list(range(len(wins))):
         stats.label("shuffled")
+    stats.label("subordinate_behind_two_windows", bool(getattr(dec, "aliases", {})))
     feat = set(cfg["feat"])
     stats.label("aw0", aw == 0)
     stats.label("granularity<dw", g < dw)
